@@ -3,10 +3,11 @@
     55 of the 108 message types; not the MSM, SSR code-bias, GLONASS bias and free-text layouts):
     a message body obtained by decoding ANY buffer is a fixed point -- the encoder accepts it wherever
     there is room, writes exactly as many bits as were read, leaves every earlier bit alone, and decoding
-    what it wrote returns the same value.  Together with C08 (each field: decode then encode gives the
+    what it wrote returns the same value; and whatever value the encoder accepts decodes (never an error)
+    to such a fixed point ([C01_accepted_decodes]), so decoding twice gives equal messages.  Together with C08 (each field: decode then encode gives the
     carrier value back, so re-encoding writes the same bits) and C07 this is the second sentence of the
-    property for those layouts.  The first sentence (every accepted message decodes to the same type and
-    re-encodes byte for byte) and the remaining layouts are covered by the correspondence and the
+    property for those layouts.  Byte-for-byte equality of the re-encoded frame for values the encoder wraps or
+    saturates, the frame wrapper (number, length, CRC) and the remaining layouts are covered by the correspondence and the
     ROUNDTRIP / ROUNDTRIPH / REDECODE probes of the check driver only.
     Proofs: Proofs/RoundTrip.v, by induction over the layout from C07's bit-level frame properties. *)
 From Coq Require Import ZArith List Lia Bool.
@@ -42,6 +43,29 @@ Check C01_decoded_fixed_point : forall n lay data off v off', In (n, lay) messag
              (zlen d = zlen d' /\ forall g, 0 <= g < o -> bitat d g = bitat d' g) /\
              t_decode_frag lay d' o = Ok (v, o + (off' - off)).
 
+(** table obligation: in every plain layout each capacity is below 2^(width of its count field) *)
+Theorem C01_counts_ok : forallb (fun m => negb (plain (snd m)) || counts_ok (snd m)) messages = true.
+Proof. vm_compute. reflexivity. Qed.
+
+(** whatever the encoder accepts, the decoder reads: the body decodes (to a value of the same layout, never an
+    error), the encoder touched no earlier bit, and the decoded value is a fixed point of encode-then-decode
+    (so decoding twice gives equal messages) *)
+Theorem C01_accepted_decodes : forall n lay d o v d' o', In (n, lay) messages -> plain lay = true ->
+  bytes_ok d = true -> 0 <= o -> t_encode_frag lay (d, o) v = Ok (d', o') ->
+  o <= o' /\ bytes_ok d' = true /\ zlen d' = zlen d /\ agree d d' 0 o /\
+  exists v', t_decode_frag lay d' o = Ok (v', o') /\
+    forall d2 o2, bytes_ok d2 = true -> 0 <= o2 -> o2 + (o' - o) <= 8 * zlen d2 ->
+    exists d3, t_encode_frag lay (d2, o2) v' = Ok (d3, o2 + (o' - o)) /\ t_decode_frag lay d3 o2 = Ok (v', o2 + (o' - o)).
+Proof.
+  intros n lay d o v d' o' Hin Hp Hb Ho E.
+  pose proof C01_counts_ok as Hc. rewrite forallb_forall in Hc. specialize (Hc _ Hin). cbn [snd] in Hc. rewrite Hp in Hc. cbn [negb orb] in Hc.
+  destruct (accepted_decodes sig_table ssr_table_1059 ssr_table_1065 SAT_CAP_1059 SAT_CAP_1065 lay Hp Hc d o v d' o' Hb Ho E) as [M [B [L [A [v' D]]]]].
+  split; [exact M|]. split; [exact B|]. split; [exact L|]. split; [exact A|]. exists v'. split; [exact D|].
+  intros d2 o2 Hb2 Ho2 Hfit.
+  destruct (decoded_fixed_point sig_table ssr_table_1059 ssr_table_1065 SAT_CAP_1059 SAT_CAP_1065 lay Hp d' o v' o' B Ho D d2 o2 Hb2 Ho2 Hfit) as [d3 [E3 [_ [_ [_ D3]]]]].
+  exists d3. split; assumption.
+Qed.
+
 (** non-vacuity: a 1005 body decoded from a buffer, re-encoded into a zeroed one, decodes to itself *)
 Example C01_example :
   match t_decode_frag layout_1005 (repeat 165 19) 12 with
@@ -58,3 +82,5 @@ Proof. vm_compute. repeat split; reflexivity. Qed.
 Print Assumptions C01_plain_count.
 Print Assumptions C01_decode_local.
 Print Assumptions C01_decoded_fixed_point.
+Print Assumptions C01_counts_ok.
+Print Assumptions C01_accepted_decodes.
